@@ -30,6 +30,7 @@ type c14Step struct {
 
 type c14Run struct {
 	NV      int       `json:"nv"`
+	VStruct []int     `json:"vstruct,omitempty"` // observed: which views are ONE *PreparedStmtDB (struct id per view)
 	Ops     []c14Op   `json:"ops"`
 	Steps   []c14Step `json:"steps"`
 	Results []string  `json:"results"`
@@ -78,6 +79,8 @@ const c14MaxHangs = 3
 
 var c14ForcedHangs int // confirmed hangs of forced worlds in this process
 
+var c14UnlistedSeen = map[string]int{} // violations matching the pattern of a finding whose entry is not "finding" (any more)
+
 func c14SettleTimeout() time.Duration {
 	if c14ForcedHangs > 0 {
 		return 500 * time.Millisecond
@@ -94,7 +97,7 @@ func c14Execute(nV int, ops []c14Op, useErrAns bool, pick func(i int, ch []c14Ch
 
 func c14ExecutePool(nV int, ops []c14Op, maxOpen int, useErrAns bool, pick func(i int, ch []c14Choice) int) *c14Run {
 	w := newC14WorldPool(nV, ops, true, maxOpen)
-	run := &c14Run{NV: nV, Ops: ops, MaxOpen: maxOpen}
+	run := &c14Run{NV: nV, Ops: ops, MaxOpen: maxOpen, VStruct: w.vstruct()}
 	timeout := c14SettleTimeout()
 	if !c14Settle(timeout) {
 		run.Hang, run.HangKind = true, "timeout"
@@ -168,9 +171,10 @@ func c14ExecutePool(nV int, ops []c14Op, maxOpen int, useErrAns bool, pick func(
 }
 
 func (run *c14Run) leanOp() []interface{} {
+	// the views of the Lean LTS are STRUCTS: views that turned out to be one *PreparedStmtDB are one view there
 	ops := [][]interface{}{}
 	for _, o := range run.Ops {
-		ops = append(ops, []interface{}{o.Kind, o.View, o.Text})
+		ops = append(ops, []interface{}{o.Kind, run.structOf(o.View), o.Text})
 	}
 	steps := [][]interface{}{}
 	for _, s := range run.Steps {
@@ -180,8 +184,56 @@ func (run *c14Run) leanOp() []interface{} {
 	if closed == nil {
 		closed = []bool{}
 	}
-	return []interface{}{"sc.check", run.NV, c14NQ(run.Ops), ops, steps,
+	return []interface{}{"sc.check", run.nStructs(), c14NQ(run.Ops), ops, steps,
 		map[string]interface{}{"res": run.Results, "closed": closed, "preps": run.Preps}}
+}
+
+// structOf: the struct behind view v (runs stored before VStruct existed: every view its own struct)
+func (run *c14Run) structOf(v int) int {
+	if v >= 0 && v < len(run.VStruct) {
+		return run.VStruct[v]
+	}
+	return v
+}
+
+func (run *c14Run) nStructs() int {
+	n := 0
+	for v := 0; v < run.NV; v++ {
+		if s := run.structOf(v); s+1 > n {
+			n = s + 1
+		}
+	}
+	if n == 0 {
+		n = 1
+	}
+	return n
+}
+
+// ---- what the regenerated facts say about the gorm.go under check (generators and notes follow it; the oracles do not) ----
+
+type c14FactsT struct {
+	SessReuse  bool // Session(PrepareStmt) hands the registered struct itself to the new handle (F14a repaired)
+	SessAtomic bool // Session registers a cache it creates with LoadOrStore (F14d repaired)
+	OK         bool
+}
+
+var c14FactsCache *c14FactsT
+
+func c14Facts() c14FactsT {
+	if c14FactsCache == nil {
+		f := c14FactsT{}
+		if outs, err := AskLean([][]interface{}{{"sc.cfg"}}); err == nil && len(outs) == 1 {
+			var m struct {
+				SessReuse  *bool `json:"sess_reuse"`
+				SessAtomic *bool `json:"sess_atomic"`
+			}
+			if json.Unmarshal(outs[0], &m) == nil && m.SessReuse != nil && m.SessAtomic != nil {
+				f = c14FactsT{*m.SessReuse, *m.SessAtomic, true}
+			}
+		}
+		c14FactsCache = &f
+	}
+	return *c14FactsCache
 }
 
 // ---- the property judged on the observations alone (no model) ----
@@ -247,7 +299,7 @@ func c14Judge(run *c14Run) []c14Verdict {
 				continue
 			}
 			if su := idx(u, "start"); su >= 0 && su < fi {
-				if p.View == o.View {
+				if run.structOf(p.View) == run.structOf(o.View) { // the same *PreparedStmtDB (observed identity)
 					if p.Kind == "close" {
 						closeOwn = true
 					} else {
@@ -305,7 +357,7 @@ func c14Judge(run *c14Run) []c14Verdict {
 	// Reset/Close and transaction-flagged entry may legitimately cost one more
 	for q := 0; q < nq; q++ {
 		allow := 1 + failP[q] + badU[q] + nReset + txOn[q]
-		if run.NV > 1 && nReset > 0 {
+		if run.nStructs() > 1 && nReset > 0 {
 			continue // stale structs: covered by F14a, no bound claimed
 		}
 		if run.Preps[q] > allow {
@@ -379,7 +431,10 @@ func c14SampleKey(run *c14Run) string {
 
 func c14RandomOps(rng *rand.Rand) (int, []c14Op) {
 	nv := 1
-	if rng.Intn(8) == 0 { // mostly avoid the listed stale-struct pattern
+	if c14Facts().SessReuse {
+		// repaired F14a: a session-level view is the registered struct itself — ordinary input space
+		nv = 1 + rng.Intn(2)
+	} else if rng.Intn(8) == 0 { // mostly avoid the listed stale-struct pattern
 		nv = 2
 	}
 	n := 2 + rng.Intn(3)
@@ -436,6 +491,15 @@ func c14ReportV(r *Result, suite string, run *c14Run, verdicts []c14Verdict) {
 		if v.Finding != "" && listed(v.Finding) {
 			r.KnownFinding(v.Finding, v.What+": "+v.Detail)
 			continue
+		}
+		if v.Finding != "" {
+			// the pattern of a finding that is NOT listed (any more): an ordinary violation; one replay per pattern is enough
+			// (the check prints the first three violations — leave room for the other suites)
+			c14UnlistedSeen[v.Finding]++
+			r.H("c14.unlisted-pattern", v.Finding)
+			if c14UnlistedSeen[v.Finding] > 1 {
+				continue
+			}
 		}
 		r.Violate(Violation{Kind: "e2e", Suite: suite, Input: run, Observed: v.Detail, Expected: "C14: " + v.What + " oracle", Note: v.Finding})
 	}
@@ -688,7 +752,8 @@ func c14Probes(r *Result, do func(*c14Run)) {
 	run = script(2, []c14Op{{"use", 1, 0}, {"reset", 1, 0}, {"use", 0, 0}},
 		[]c14Choice{{"start", 0, "ok"}, {"prep", 0, "ok"}, {"use", 0, "ok"}, {"start", 1, "ok"}, {"start", 2, "ok"}})
 	do(run)
-	r.Note("probe F14a (stale struct after Reset): hang=%v results=%v", run.Hang, run.Results)
+	r.Note("probe F14a (Reset through a session-level view, then the database's own view): structs behind the 2 views=%v hang=%v results=%v (facts: session reuses the registered struct=%v)",
+		run.VStruct, run.Hang, run.Results, c14Facts().SessReuse)
 	// F14c witness: Reset while the prepare is in flight; the closer races the preparer's own execution
 	seen, hung := 0, false
 	for k := 0; k < 40 && seen == 0 && !c14ForcedBail(); k++ {
